@@ -19,8 +19,15 @@ func checkC04(c *Ctx) {
 	}
 	c.runDenseImplMC("IK_ExactExact", 2, "dense x dense (array level)")
 	// exhaustive tree, small alphabet
-	c.runStoreGen(&StoreGen{Kinds: exact2, Keys: []int{0, 2, 4}, Q: 4, Weights: []int{0, 6}, Factors: [][2]int{{3, 2}},
+	c.runStoreGen(&StoreGen{Kinds: exact2, Keys: []int{0, 2, 4}, Q: 4, Weights: []int{0, 6}, Factors: [][2]int{{3, 2}, {1, 2}},
 		Repeats: []int{33}, Ops: opsC04, Depth: c.pick(3, 4)}, c.pick(6, 12), "exhaustive tree")
+	// deep narrow trees: every sequence of 5 (thorough: 6) events over focused alphabets - multi-step memory-reuse paths
+	c.runStoreGen(&StoreGen{Kinds: exact2, Keys: []int{0, 3}, Q: 4, Weights: []int{6}, Ops: []string{"Add", "AddWithCount", "Merge", "Clear"},
+		Depth: c.pick(4, 6)}, c.pick(3, 3), "deep narrow tree add/addWithCount/merge/clear")
+	c.runStoreGen(&StoreGen{Kinds: exact2, Keys: []int{0, 3}, Q: 4, Weights: []int{6}, Ops: []string{"Add", "Merge", "Clear"},
+		Depth: c.pick(5, 7)}, c.pick(3, 3), "deep narrow tree add/merge/clear")
+	c.runStoreGen(&StoreGen{Kinds: exact2, Keys: []int{1, 2}, Q: 4, Weights: []int{6}, Repeats: []int{33}, Factors: [][2]int{{1, 2}},
+		Ops: []string{"Add", "AddRepeat", "EncDec", "Reweight", "CopyTo"}, Depth: c.pick(4, 5)}, c.pick(3, 3), "deep narrow tree add/addRepeat/encDec/reweight/copy")
 	// long random histories, full alphabet
 	c.runStoreGen(&StoreGen{Kinds: exact2, Keys: []int{0, 1, 2, 3, 4}, Q: 4, Weights: []int{0, 1, 2, 4, 8, 12},
 		Factors: [][2]int{{1, 4}, {1, 2}, {2, 1}, {3, 1}}, Repeats: []int{33, 70}, Ops: opsC04, Depth: c.pick(16, 24),
